@@ -248,8 +248,10 @@ def gen_leaves(ctx):
     nprng = np.random.default_rng(rng.getrandbits(32))
     nens = rng.choice([1, 1, 2, 3])
     layout = {}
+    # ensemble names: unrelated, or one a prefix / a suffix / an inner part of another (they are different ensembles all the same)
+    ens_names = rng.choice([['A', 'B', 'C'], ['A', 'B', 'C'], ['B450', 'sB450', 'B45'], ['A', 'A1', 'xA'], ['ens', 'ens2', '1ens'], ['N2', 'N20', 'N200']])
     for e in range(nens):
-        ens = ['A', 'B', 'C'][e]
+        ens = ens_names[e]
         nrep = rng.choice([1, 2, 3])
         names = ['%s|r%d' % (ens, i + 1) for i in range(nrep)] if (nrep > 1 or rng.random() < 0.6) else [ens]
         base = {}
